@@ -2264,6 +2264,1049 @@ class SdpClientDriver(ChannelDriver):
 
 
 # =============================================================================
+# (d) stateful surfaces: one hostile-but-parseable frame changes state that only LATER well-formed traffic depends on
+# =============================================================================
+def _conf_rfc_option(options: bytes):
+    """(mode, tx window, max transmit, retransmission timeout, monitor timeout, mps) of the Retransmission and Flow
+    Control option in a Configure Request's option bytes, or None."""
+    off = 0
+    while off + 2 <= len(options):
+        t, ln = options[off] & 0x7F, options[off + 1]
+        v = options[off + 2: off + 2 + ln]
+        if t == 0x04 and len(v) == 9:
+            return struct.unpack('<BBBHHH', v)
+        off += 2 + ln
+    return None
+
+
+class ErtmStateDriver(BrSigDriver):
+    """An ERTM channel to the victim's echo server, spoken by a hand-written peer that keeps the true sequence state
+    (rf.ErtmSeqModel). Hostile frames are S- and I-frames whose ReqSeq / TxSeq / P / F / reserved bits are set
+    relative to that state (0..63 ahead of the victim's NextTxSeq, with 0..W of the victim's frames left
+    unacknowledged), plus mutated corpus frames. The reference is a RUN: a poll (RR P=1 -> F=1 owed), then 72 I-frames in
+    each direction - more than the sequence space - in bursts of exactly the negotiated TxWindow without any
+    acknowledgment inside a burst, every echoed SDU compared, then a final poll whose ReqSeq must acknowledge all of it."""
+    RUN = 72
+
+    def __init__(self, env, rng):
+        super().__init__(env, rng)
+        self.corpus = rf.ertm_corpus()
+        self.max_len = 300
+        case = env.case
+        if case['mode'] == 'enum':
+            self.W = (63, 8, 3, 1, 32, 2, 63, 8)[case['part'] % 8]
+        else:
+            self.W = rng.choice([1, 2, 3, 8, 8, 32, 63, 63])
+        self.ch = None
+        self.model = None
+        self.label = 'none'
+        self.n = 0
+        self.round = 0
+        self.sdus = []              # SDUs reassembled from the victim's in-sequence I-frames
+        self.partial = None
+        self.final = None           # last frame of the victim with F=1
+        self.sar_errors = 0
+        self.atk.auto.append(self._on_pdu)
+
+    # -- the peer's receive side --------------------------------------------------------------------
+    def _on_pdu(self, cid, payload):
+        if self.ch is None or cid != self.ch[0]:
+            return
+        m, r = self.model, self.env.r
+        f = rf.ertm_parse(payload)
+        if f is None:
+            r.ev('ertm_victim_short_frames')
+            return
+        m.victim_req = f['req']
+        if f['f']:
+            self.final = f
+        if f['t'] == 's':
+            r.ev('ertm_victim_sframes')
+            if f['p'] or (f['f'] and self.in_reference and not self.polling and f['s'] == 0):
+                # a poll (P=1) is owed an F=1 answer. (bumble's retransmission-timer poll carries F instead of P:
+                # answered the same way; it only occurs when virtual time passes while frames are unacknowledged)
+                r.ev('ertm_victim_polls_answered')
+                self.send_own(rf.ertm_s(0, m.rx_expected, f=1))
+            return
+        if f['tx'] != m.rx_expected:
+            r.ev('ertm_victim_iframes_out_of_sequence')
+            return
+        m.rx_expected = (m.rx_expected + 1) % 64
+        r.ev('ertm_victim_iframes')
+        sar, p = f['sar'], f['payload']
+        if sar == 0 and self.partial is None:
+            self.sdus.append(bytes(p))
+        elif sar == 1 and self.partial is None and len(p) >= 2:
+            self.partial = [p[0] | (p[1] << 8), bytearray(p[2:])]
+        elif sar in (2, 3) and self.partial is not None:
+            self.partial[1] += p
+            if sar == 2:
+                ln, data = self.partial
+                self.partial = None
+                self.sdus.append(bytes(data) if ln == len(data) else b'<SDU length %d != %d>' % (ln, len(data)))
+        else:
+            self.sar_errors += 1
+            self.sdus.append(b'<SAR sequence error: sar=%d>' % sar)
+
+    polling = False
+    in_reference = False
+
+    def send_own(self, pdu: bytes):
+        """A frame of the well-behaved side of the peer (accounted in the model like every other frame)."""
+        self.model.note_sent(pdu)
+        self.atk.send(self.ch[1], pdu)
+
+    # -- channels ---------------------------------------------------------------------------------
+    async def new_channel(self):
+        atk = self.atk
+        if self.ch is not None and self.ch[0] not in self.closed_by_victim:
+            my, vcid = self.ch
+            self.ch = None
+            ident = atk.nid()
+            atk.send_sig(0x06, ident, rf.u16(vcid) + rf.u16(my))
+            s = await atk.until(lambda: atk.take_sig(lambda c, i, d: c == 0x07 and i == ident))
+            if s is None:
+                return [('no-disconnection-response', f'Disconnection Request for the ERTM channel {vcid:#x} not answered')]
+        self.ch = None
+        res = await atk.open_classic(ECHO_PSM_ERTM, ertm=True, window=self.W)
+        if isinstance(res, str):
+            return [('channel-open-fails-after-garbage', f'Connection Request to the ERTM echo PSM: {res}')]
+        self.closed_by_victim.discard(res[0])
+        opt = _conf_rfc_option(getattr(atk, 'victim_conf_options', b''))
+        self.victim_window = opt[1] if opt else 1
+        self.victim_mps = opt[5] if opt else 48
+        self.model = rf.ErtmSeqModel(self.W, victim_mps=self.victim_mps)
+        self.sdus, self.partial, self.final = [], None, None
+        self.ch = res
+        self.env.r.ev('ertm_channels_opened')
+        return []
+
+    async def before_round(self):
+        if self.ch is None or self.ch[0] in self.closed_by_victim or self.model.undefined:
+            bad = await self.new_channel()
+            if bad:
+                raise HarnessError(f'cannot open the ERTM target channel: {bad}')
+        self.label = 'none'
+        self.round += 1
+        # leave 0..W (+2) echoes of well-formed SDUs unacknowledged, so that hostile acknowledgments meet a non-empty window
+        k = (0, 0, 1, 2, self.W, self.W + 2, 0, 3)[self.rng.randrange(8) if self.env.case['mode'] == 'rand' else self.round % 8]
+        for _ in range(min(k, 20)):
+            self.n += 1
+            self.send_own(rf.ertm_i(self.model.my_tx, self.model.acked) + b'C17 prime %d' % self.n)
+            await self.atk.rg.quiesce(extra_turns=4)
+        if self.model.outstanding():
+            self.env.r.ev('ertm_rounds_with_outstanding_frames')
+
+    # -- hostile frames ----------------------------------------------------------------------------
+    def tx(self, sc):
+        m = self.model
+        if sc[0] == rf.ERTM_KIND_RAW:
+            data = sc[1:]
+            self.label = 'mutated-frame'
+        else:
+            self.n += 1
+            self.label = rf.ertm_label(sc, self.W, m.outstanding())
+            data = rf.ertm_script_bytes(sc, m, b'C17 hostile %d' % self.n)
+        true_class = m.note_sent(data)
+        self.env.r.ev('ertm_sent_' + true_class.split('/')[-1])
+        self.atk.send(self.ch[1], data)
+
+    def gen(self, n):
+        rng, W = self.rng, self.W
+        out = []
+        if rng.random() < 0.2:
+            for _ in range(min(n, 3)):
+                k, nm, d = rf.mutate(rng, self.corpus, max_len=self.max_len)
+                out.append(('raw-' + k, nm, bytes([rf.ERTM_KIND_RAW]) + d))
+            return out
+        kind = rng.choice([rf.ERTM_KIND_S, rf.ERTM_KIND_S, rf.ERTM_KIND_I])
+        s = rng.randrange(4)
+        for _ in range(rng.choice([1, 1, 2, 3])):
+            off = rng.choice([0, 1, 1, W - 1, W, W, W + 1, 63, 62, 64 - W, rng.randrange(64), rng.randrange(64)]) % 64
+            pf = rng.choice([(0, 0), (0, 0), (1, 0), (0, 1), (1, 1)])
+            if kind == rf.ERTM_KIND_S:
+                sc = rf.ertm_script(kind, s=s, req_off=off, p=pf[0], f=pf[1], rsv=rng.choice([0, 0, 0, 1, 2, 3]))
+            else:
+                sc = rf.ertm_script(kind, req_off=off, tx_off=rng.choice([0, 0, 0, 1, 2, W, 63, 32, rng.randrange(64)]) % 64, f=pf[1])
+            out.append(('ertm-' + rf.ertm_label(sc, W, 0).replace('-reqseq', '/reqseq', 1), rf.ertm_script_name(sc), sc))
+        return out
+
+    def enum_frames(self):
+        # one scripted frame per round, each followed by the whole run (thinned out in the quick tier like the rest)
+        for sc in rf.ertm_enum_scripts():
+            yield ('single-ertm-' + rf.ertm_label(sc, self.W, 0).replace('-reqseq', '/reqseq', 1), rf.ertm_script_name(sc), sc)
+
+    # -- the run -------------------------------------------------------------------------------------
+    async def poll(self, what):
+        """RR with P=1 acknowledging everything received: the answer (any frame with F=1) is owed at once."""
+        m = self.model
+        self.final = None
+        self.polling = True
+        try:
+            self.send_own(rf.ertm_s(0, m.rx_expected, p=1))
+            f = await self.atk.until(lambda: self.final)
+        finally:
+            self.polling = False
+        if f is None:
+            return None, [(f'poll-unanswered/after-{self.label}',
+                           f'{what}: RR P=1 ReqSeq={m.rx_expected} on the ERTM channel got no frame with F=1 {self.diag()}')]
+        self.env.r.ev('ertm_polls_answered')
+        return f, []
+
+    def diag(self):
+        # diagnosis only
+        try:
+            ch = self.env.victim.l2cap_channel_manager.channels.get(self.env.vh, {}).get(self.ch[1])
+            p = ch.processor
+            return (f'[victim: state {ch.state.name}, next_tx_seq={p._next_tx_seq} last_acked_tx_seq={p._last_acked_tx_seq} '
+                    f'tx_window={len(p._tx_window)} pending={len(p._pending_pdus)} req_seq_num={p._req_seq_num} '
+                    f'remote_busy={p._remote_is_busy} monitor={p._monitor_handle is not None}; peer: my_tx={self.model.my_tx} '
+                    f'rx_expected={self.model.rx_expected} acked={self.model.acked} W={self.W}]')
+        except Exception as e:      # noqa: BLE001
+            return f'[victim state unavailable: {type(e).__name__}]'
+
+    def segments(self, sdu: bytes):
+        """I-frame (SAR, body) pairs for one SDU sent to the victim."""
+        mps = self.victim_mps
+        if len(sdu) <= mps:
+            return [(0, sdu)]
+        rest = sdu[mps - 2:]
+        parts = [sdu[:mps - 2]] + [rest[i:i + mps] for i in range(0, len(rest), mps)]
+        out = []
+        for i, p in enumerate(parts):
+            out.append((1, rf.u16(len(sdu)) + p) if i == 0 else ((2 if i == len(parts) - 1 else 3), p))
+        return out
+
+    async def echo_run(self):
+        atk, r = self.atk, self.env.r
+        m = self.model
+        # 1. poll until nothing of the hostile phase is left in flight (echoes of its SDUs may still be queued
+        #    behind the window: each acknowledgment lets more of them out)
+        quiet = 0
+        for _ in range(90):
+            n0 = m.rx_expected
+            f, bad = await self.poll('start of the run')
+            if bad:
+                return bad
+            try:
+                await atk.rg.quiesce(extra_turns=8)
+            except vloop.Hang:
+                return [('livelock', 'no quiescence after the poll')]
+            # (two quiet polls in a row: bumble resumes sending after a Receiver Not Ready only on the acknowledgment
+            # that follows the RR which cleared the busy condition)
+            quiet = quiet + 1 if m.rx_expected == n0 else 0
+            if quiet >= 2:
+                break
+        else:
+            return [(f'echoes-never-drain/after-{self.label}', f'the victim keeps sending I-frames after 80 polls {self.diag()}')]
+        if f['req'] != m.my_tx:
+            # the receiver dropped (or took) a hostile in-sequence I-frame whose acknowledgment it refused: its answer
+            # to the poll says where it is, like for any real peer
+            r.ev('ertm_resynchronised_from_poll')
+            m.my_tx = f['req']
+        if self.partial is not None:
+            return [(f'victim-sdu-never-completed/after-{self.label}', f'the victim left a segmented SDU unfinished {self.diag()}')]
+        # 2. sometimes: nothing happens for a while (everything is acknowledged: no timer of a correct entity is running)
+        if self.rng.random() < 0.25:
+            await asyncio.sleep(self.rng.choice([3.0, 15.0, 40.0]))
+            r.ev('ertm_idle_gaps')
+        # 3. the run: bursts of exactly the window, no acknowledgment inside a burst
+        B = max(1, min(self.W, self.victim_window))
+        sent = 0
+        self.sdus = []
+        expected = []
+        k = 0
+        while sent < self.RUN:
+            burst = []
+            frames = 0
+            while frames < B and sent + frames < self.RUN:
+                k += 1
+                self.n += 1
+                if B - frames >= 3 and k % 7 == 3:
+                    sdu = (b'C17 segmented %d ' % self.n) * 40
+                    sdu = sdu[:2 * self.victim_mps + 40]
+                else:
+                    sdu = b'C17 run %d' % self.n
+                segs = self.segments(sdu)
+                if frames + len(segs) > B:
+                    sdu = b'C17 run %d' % self.n
+                    segs = [(0, sdu)]
+                burst.append((sdu, segs))
+                frames += len(segs)
+            for sdu, segs in burst:
+                for sar, body in segs:
+                    self.send_own(rf.ertm_i(m.my_tx, m.rx_expected, sar=sar) + body)
+                expected.append(sdu)
+            sent += frames
+            got = await atk.until(lambda: True if len(self.sdus) >= len(expected) else None)
+            if got is None:
+                have = len(self.sdus)
+                # a live peer acknowledges what it received and waits again
+                for _ in range(B + 2):
+                    self.send_own(rf.ertm_s(0, m.rx_expected))
+                    got = await atk.until(lambda: True if len(self.sdus) >= len(expected) else None, t=1.0)
+                    if got:
+                        break
+                symptom = 'send-window-smaller-than-negotiated' if got else 'i-frames-stop'
+                return [(f'{symptom}/after-{self.label}',
+                         f'{len(burst)} SDU(s) ({frames} I-frames, the negotiated TxWindow is {self.W}) sent in one burst after '
+                         f'{sent - frames} I-frames of the run: {have - (len(expected) - len(burst))} echoed before any acknowledgment, '
+                         f'{len(self.sdus) - (len(expected) - len(burst))} after acknowledging them one by one {self.diag()}')]
+            if self.sdus[:len(expected)] != expected or len(self.sdus) != len(expected):
+                i = next((i for i, (a, b) in enumerate(zip(self.sdus, expected)) if a != b), min(len(self.sdus), len(expected)))
+                return [(f'wrong-echo/after-{self.label}',
+                         f'SDU {i} of the run: echoed {self.sdus[i][:40] if i < len(self.sdus) else None!r} ({len(self.sdus)} SDUs) != '
+                         f'{expected[i][:40] if i < len(expected) else None!r} ({len(expected)} SDUs) {self.diag()}')]
+            r.ev('ertm_run_bursts')
+        r.ev('ertm_run_iframes_echoed', sent)
+        r.ev('ertm_run_sdus_echoed', len(expected))
+        # 4. the victim's receive side: its answer to a poll acknowledges every I-frame of the run
+        f, bad = await self.poll('end of the run')
+        if bad:
+            return bad
+        if f['req'] != m.my_tx:
+            return [(f'victim-acknowledges-wrong-sequence/after-{self.label}',
+                     f'after the run the victim answers the poll with ReqSeq={f["req"]}, the next TxSeq of the peer is {m.my_tx} {self.diag()}')]
+        r.ev('ertm_runs_completed')
+        return []
+
+    async def reference(self):
+        self.in_reference = True
+        try:
+            return await self.reference_run()
+        finally:
+            self.in_reference = False
+
+    async def reference_run(self):
+        bad = await self.l2cap_echo()
+        if self.ch is None or self.ch[0] in self.closed_by_victim:
+            # closing the channel is what 8.6.5 tells a receiver to do on an invalid ReqSeq / TxSeq: legitimate; the next one must work
+            self.env.r.ev('ertm_victim_closed_channel')
+            bad += await self.new_channel()
+        elif self.model.undefined:
+            self.env.r.ev('ertm_channels_retired_undefined_sar')
+            bad += await self.new_channel()
+        if bad:
+            return bad
+        bad = await self.echo_run()
+        if bad and self.ch is not None and self.ch[0] in self.closed_by_victim:
+            # (the victim closed the channel while the run was going on: an answer to the hostile frames that came late)
+            self.env.r.ev('ertm_victim_closed_channel')
+            bad = await self.new_channel()
+            return bad or await self.echo_run()
+        return bad
+
+
+class RfcommOpenDriver(Driver):
+    """The victim is the RFCOMM INITIATOR (rfcomm.Client over an L2CAP channel it opened to a PSM 3 played by hand);
+    the peer is a hand-written responder. Each round the victim calls Multiplexer.open_dlc() and the responder plays
+    one scripted dialogue (rf.RFCOMM_PN_STEPS x RFCOMM_SABM_STEPS x RFCOMM_MSC_STEPS): PN accepted / changed / refused /
+    unanswered, SABM answered UA / DM / DISC / nothing / frames for other DLCIs first, MSC variants; or it sends
+    unsolicited frames while nothing is outstanding. Then it behaves: what it left unanswered is answered properly,
+    the outstanding open_dlc() must TERMINATE (DLC or ordinary exception), and a run of fresh open / data both ways /
+    close cycles on the same and on other channels, two DLCs open at once, must work."""
+    CHANNELS = (1, 2, 3, 5, 9, 17, 30)
+
+    async def setup(self):
+        from bumble import rfcomm
+        atk = self.atk
+        atk.serve(3, auto_config=True)
+        self.script = None
+        self.scripted_dlci = None
+        self.pending_pn = []          # (dlci, value bytes) of PN commands not answered yet
+        self.pending_sabm = []        # DLCIs of SABMs not answered yet
+        self.open = {}                # dlci -> {'rx': bytearray, 'credits': int}
+        self.mux_closed = False
+        self.closed = False
+        self.task = None
+        self.task_channel = None
+        self.label = 'none'
+        self.n = 0
+        self.rch = None
+        self.last_channel = self.CHANNELS[0]
+        atk.auto.append(self._on_pdu)
+        self.client = rfcomm.Client(self.env.vconn)
+        try:
+            self.mux = await vloop.vwait(self.client.start(), 60)
+        except (vloop.Hang, Exception) as e:      # noqa: BLE001
+            raise HarnessError(f'the victim could not start its RFCOMM client against the hand-written responder: {type(e).__name__} {e}')
+        base = rf.rfcomm_corpus(self.CHANNELS[1] << 1, role_cr=0)
+        self.corpus = [p for p in base if p.name.split('/')[1] in (
+            'ua-unsolicited', 'dm-other-dlci', 'uih-data', 'uih-other-dlci', 'mcc-pn-rsp', 'mcc-pn-other', 'mcc-msc-cmd', 'mcc-msc-rsp',
+            'mcc-msc-unknown-dlci', 'mcc-rls', 'mcc-rpn', 'mcc-test', 'mcc-nsc', 'mcc-unknown-type', 'mcc-empty', 'ua-dlci0', 'unknown-control')]
+
+    # -- the responder -----------------------------------------------------------------------------
+    def send(self, frame: bytes):
+        self.atk.send(self.rch[1], frame)
+
+    def mcc(self, t, cr, value):
+        self.send(rf.rfcomm_frame(rf.UIH, 0, 0, 0, rf.rfcomm_mcc(t, cr, value)))
+
+    def _on_pdu(self, cid, payload):
+        atk = self.atk
+        if cid == 1:
+            if len(payload) >= 8 and payload[0] == 0x06:
+                dcid, scid = struct.unpack_from('<HH', payload, 4)
+                atk.send_sig(0x07, payload[1], rf.u16(dcid) + rf.u16(scid))
+                if self.rch and dcid == self.rch[0]:
+                    self.closed = True
+            return
+        if self.rch is None:
+            served = getattr(atk, 'served', [])
+            if not served or served[-1][2] != 3 or cid != served[-1][0]:
+                return
+            self.rch = (served[-1][0], served[-1][1])
+        if cid != self.rch[0]:
+            return
+        f = rf.rfcomm_parse(payload)
+        r = self.env.r
+        if f is None or not f.fcs_ok:
+            r.ev('rfo_victim_frames_unparseable')
+            return
+        r.ev('rfo_victim_frames')
+        if f.dlci == 0:
+            if f.ftype == rf.SABM:
+                self.send(rf.rfcomm_frame(rf.UA, 1, 0, 1))
+            elif f.ftype == rf.DISC:
+                self.send(rf.rfcomm_frame(rf.UA, 1, 0, 1))
+                self.mux_closed = True
+            elif f.ftype == rf.UIH:
+                m = rf.rfcomm_mcc_parse(f.info)
+                if m is None:
+                    return
+                t, cr, v = m
+                if t == rf.MCC_PN and cr == 1 and len(v) >= 8:
+                    self.on_pn(v[0] & 0x3F, v)
+                elif t == rf.MCC_MSC and cr == 1:
+                    self.mcc(rf.MCC_MSC, 0, v)
+            return
+        d = f.dlci
+        if f.ftype == rf.SABM:
+            self.on_sabm(d)
+        elif f.ftype == rf.DISC:
+            self.send(rf.rfcomm_frame(rf.UA, 1, d, 1))
+            self.open.pop(d, None)
+        elif f.ftype == rf.UIH:
+            st = self.open.setdefault(d, {'rx': bytearray(), 'credits': 0})
+            info = f.info
+            if f.p_f and info:
+                st['credits'] += info[0]
+                info = info[1:]
+            st['rx'] += info
+
+    def pn_rsp(self, dlci, v, frame_size=127, credits=7):
+        self.open.setdefault(dlci, {'rx': bytearray(), 'credits': 0})['credits'] = v[7] & 7
+        self.mcc(rf.MCC_PN, 0, rf.rfcomm_pn(dlci, frame_size, credits, cl=0xE0))
+
+    def on_pn(self, dlci, v):
+        sc = self.script
+        if sc is None or self.scripted_dlci is not None:
+            return self.pn_rsp(dlci, v)
+        self.scripted_dlci = dlci
+        step = rf.RFCOMM_PN_STEPS[sc[0]]
+        o = dlci ^ 4
+        if step == 'accept':
+            self.pn_rsp(dlci, v)
+        elif step == 'accept-small-frame':
+            self.pn_rsp(dlci, v, frame_size=23)
+        elif step == 'accept-no-credits':
+            self.pn_rsp(dlci, v, credits=0)
+        elif step == 'accept-other-dlci':
+            self.pn_rsp(o, v)
+        elif step == 'accept-twice':
+            self.pn_rsp(dlci, v)
+            self.pn_rsp(dlci, v)
+        elif step == 'refuse-dm':
+            self.send(rf.rfcomm_frame(rf.DM, 1, dlci, 1))
+        elif step == 'silent':
+            self.pending_pn.append((dlci, v))
+        elif step == 'dm-other-dlci-then-accept':
+            self.send(rf.rfcomm_frame(rf.DM, 1, o, 1))
+            self.pn_rsp(dlci, v)
+        elif step == 'ua-then-accept':
+            self.send(rf.rfcomm_frame(rf.UA, 1, dlci, 1))
+            self.pn_rsp(dlci, v)
+        elif step == 'nsc-then-accept':
+            self.mcc(rf.MCC_NSC, 0, bytes([(rf.MCC_PN << 2) | 3]))
+            self.pn_rsp(dlci, v)
+        elif step == 'pn-command-back-then-accept':
+            self.mcc(rf.MCC_PN, 1, rf.rfcomm_pn(dlci))
+            self.pn_rsp(dlci, v)
+
+    def msc_cmd(self, dlci, fc=0, extra=b''):
+        self.mcc(rf.MCC_MSC, 1, rf.rfcomm_msc(dlci, fc) + extra)
+
+    def ua_and_msc(self, d, msc='command-and-response', cr=1):
+        o = d ^ 4
+        if msc == 'command-before-ua':
+            self.msc_cmd(d)
+        self.send(rf.rfcomm_frame(rf.UA, cr, d, 1))
+        self.open.setdefault(d, {'rx': bytearray(), 'credits': 0})
+        if msc == 'command-and-response':
+            self.msc_cmd(d)
+        elif msc == 'response-only':
+            self.mcc(rf.MCC_MSC, 0, rf.rfcomm_msc(d))
+        elif msc == 'other-dlci':
+            self.msc_cmd(o)
+        elif msc == 'with-break':
+            self.msc_cmd(d, extra=b'\x13')
+        elif msc == 'flow-off-then-on':
+            self.msc_cmd(d, fc=1)
+            self.msc_cmd(d, fc=0)
+        elif msc == 'rls-rpn':
+            self.mcc(rf.MCC_RLS, 1, bytes([3 | (d << 2), 0x03]))
+            self.mcc(rf.MCC_RPN, 1, bytes([3 | (d << 2), 3, 3, 0, 0x11, 0x13, 0x7F, 0x3F]))
+            self.msc_cmd(d)
+
+    def on_sabm(self, d):
+        sc = self.script
+        if sc is None or self.sabm_done:
+            return self.ua_and_msc(d)
+        self.sabm_done = True
+        step, msc = rf.RFCOMM_SABM_STEPS[sc[1]], rf.RFCOMM_MSC_STEPS[sc[2]]
+        o = d ^ 4
+        if step == 'ua':
+            self.ua_and_msc(d, msc)
+        elif step == 'dm':
+            self.send(rf.rfcomm_frame(rf.DM, 1, d, 1))
+        elif step == 'silent':
+            self.pending_sabm.append(d)
+        elif step == 'dm-other-dlci-then-ua':
+            self.send(rf.rfcomm_frame(rf.DM, 1, o, 1))
+            self.ua_and_msc(d, msc)
+        elif step == 'ua-other-dlci-then-ua':
+            self.send(rf.rfcomm_frame(rf.UA, 1, o, 1))
+            self.ua_and_msc(d, msc)
+        elif step == 'ua-twice':
+            self.ua_and_msc(d, msc)
+            self.send(rf.rfcomm_frame(rf.UA, 1, d, 1))
+        elif step == 'dm-dlci0':
+            self.send(rf.rfcomm_frame(rf.DM, 1, 0, 1))
+            self.pending_sabm.append(d)
+        elif step == 'disc':
+            # the responder closes the DLC instead of confirming it: a terminal answer, like DM
+            self.send(rf.rfcomm_frame(rf.DISC, 0, d, 1))
+        elif step == 'ua-wrong-cr':
+            self.ua_and_msc(d, msc, cr=0)
+
+    sabm_done = False
+
+    # -- rounds --------------------------------------------------------------------------------------
+    async def call_open(self, channel):
+        try:
+            return 'ok', await self.mux.open_dlc(channel)
+        except asyncio.CancelledError:
+            raise
+        except BaseException as e:      # noqa: BLE001 — classified by the caller
+            return 'exc', e
+
+    def keep(self, data):
+        return rf.rfcomm_is_legit_state_change(data, 0) is None
+
+    def gen(self, n):
+        rng = self.rng
+        if rng.random() < 0.3:
+            out = []
+            for _ in range(min(n, 4)):
+                k, nm, d = rf.mutate(rng, self.corpus, klass=rng.choice(['valid', 'valid', 'bitflip', 'byte-set']), max_len=200)
+                if self.keep(d):
+                    out.append(('unsolicited-' + k, nm, b'\x01' + d))
+            if out:
+                return out
+        pn = rng.choice(rf.RFCOMM_PN_STEPS)
+        sabm = rng.choice(rf.RFCOMM_SABM_STEPS)
+        msc = rng.choice(rf.RFCOMM_MSC_STEPS)
+        sc = rf.rfcomm_open_script(pn, sabm, msc)
+        return [(rf.rfcomm_open_label(sc), rf.rfcomm_open_script_name(sc), b'\x00' + sc)]
+
+    def enum_frames(self):
+        for sc in rf.rfcomm_open_enum_scripts():
+            yield ('solo-' + rf.rfcomm_open_label(sc), rf.rfcomm_open_script_name(sc), b'\x00' + sc)
+        for p in self.corpus:
+            yield ('single-unsolicited-valid', p.name, b'\x01' + p.data)
+
+    async def before_round(self):
+        self.label = 'none'
+
+    def tx(self, data):
+        if data[0] == 1:
+            self.label = 'unsolicited-frames'
+            self.send(data[1:])
+            return
+        if self.task is not None and not self.task.done():
+            return          # (one outstanding open at a time: the API allows no more)
+        sc = data[1:]
+        self.label = rf.rfcomm_open_label(sc)
+        self.script, self.scripted_dlci, self.sabm_done = sc, None, False
+        free = [c for c in self.CHANNELS if (c << 1) not in self.mux.dlcs]
+        self.task_channel = self.rng.choice(free or list(self.CHANNELS))
+        self.env.r.ev('rfo_scripted_opens')
+        self.task = asyncio.ensure_future(self.call_open(self.task_channel))
+
+    def diag(self):
+        m = self.mux
+        return (f'[victim multiplexer state {m.state.name}, open_pn={"set" if m.open_pn else None}, '
+                f'dlcs={ {k: v.state.name for k, v in m.dlcs.items()} }]')
+
+    async def close_dlc(self, dlc, what):
+        try:
+            await vloop.vwait(dlc.disconnect(), 60)
+            self.env.r.ev('rfo_dlcs_closed')
+            return []
+        except vloop.Hang:
+            return [(f'wedge:dlc-disconnect-never-completes/after-{self.label}', f'{what}: DLC.disconnect() still pending after 60 virtual s '
+                                                                                f'although the responder answered the DISC {self.diag()}')]
+        except Exception as e:      # noqa: BLE001
+            return [(f'dlc-disconnect-fails/after-{self.label}', f'{what}: DLC.disconnect() raised {type(e).__name__}: {e} {self.diag()}')]
+
+    async def cycle(self, channel, keep_open=False):
+        """open_dlc(channel) against the well-behaved responder, data both ways, close."""
+        r, atk = self.env.r, self.atk
+        what = f'fresh open_dlc({channel})'
+        dlci = channel << 1
+        self.open.pop(dlci, None)
+        try:
+            dlc = await vloop.vwait(self.mux.open_dlc(channel), 60)
+        except vloop.Hang:
+            return None, [(f'wedge:fresh-open-never-completes/after-{self.label}',
+                           f'{what} still pending after 60 virtual s although the responder answered PN and SABM {self.diag()}')]
+        except Exception as e:      # noqa: BLE001
+            return None, [(f'fresh-open-fails/after-{self.label}', f'{what} raised {type(e).__name__}: {e} {self.diag()}')]
+        if dlc.dlci != dlci:
+            return None, [(f'fresh-open-wrong-dlc/after-{self.label}', f'{what} returned {dlc}')]
+        self.n += 1
+        up, down = b'C17 rfo up %d' % self.n, b'C17 rfo down %d' % self.n
+        got = []
+        dlc.sink = lambda data: got.append(bytes(data))
+        dlc.write(up)
+        st = self.open.setdefault(dlci, {'rx': bytearray(), 'credits': 0})
+        self.send(rf.rfcomm_frame(rf.UIH, 0, dlci, 1, down, credits=10))
+        await atk.until(lambda: True if bytes(st['rx']) == up and b''.join(got) == down else None)
+        if bytes(st['rx']) != up or b''.join(got) != down:
+            return dlc, [(f'no-data-on-fresh-dlc/after-{self.label}',
+                          f'{what}: the responder received {bytes(st["rx"])!r} (sent {up!r}), the victim received {b"".join(got)!r} '
+                          f'(sent {down!r}); {dlc} {self.diag()}')]
+        r.ev('rfo_cycles_data_both_ways')
+        if keep_open:
+            return dlc, []
+        return None, await self.close_dlc(dlc, what)
+
+    async def reference(self):
+        r = self.env.r
+        if self.closed:
+            return [('victim-closed-the-channel', 'the victim sent a Disconnection Request for its RFCOMM channel')]
+        # 1. the responder behaves from now on, and answers what it left unanswered
+        self.script = None
+        pn, self.pending_pn = self.pending_pn, []
+        sabm, self.pending_sabm = self.pending_sabm, []
+        for dlci, v in pn:
+            self.pn_rsp(dlci, v)
+        for d in sabm:
+            self.ua_and_msc(d)
+        # 2. the outstanding open_dlc() terminates
+        if self.task is not None:
+            task, self.task = self.task, None
+            try:
+                kind, v = await vloop.vwait(asyncio.shield(task), 120)
+            except vloop.Hang:
+                task.cancel()
+                return [(f'wedge:open-dlc-never-completes/after-{self.label}',
+                         f'open_dlc({self.task_channel}) still pending 120 virtual s after the responder gave a terminal answer '
+                         f'(UA, DM or DISC for the DLCI) to everything the victim sent {self.diag()}')]
+            r.ev('rfo_outstanding_opens_terminated')
+            if kind == 'exc':
+                if is_fatal(v):
+                    return [(f'wedge:fatal-{type(v).__name__}', f'open_dlc raised {type(v).__name__}: {str(v)[:120]}')]
+                r.ev('rfo_outstanding_opens_raised')
+                r.add_extra_list('rfo_open_exception_types', type(v).__name__)
+            else:
+                r.ev('rfo_outstanding_opens_returned')
+                if v.state.name == 'CONNECTED':
+                    bad = await self.close_dlc(v, f'open_dlc({self.task_channel}) of the hostile dialogue')
+                    if bad:
+                        return bad
+        try:
+            await self.atk.rg.quiesce(extra_turns=8)
+        except vloop.Hang:
+            return [('livelock', 'no quiescence after the outstanding open terminated')]
+        # (a DLC the responder confirmed although the victim's open_dlc() raised is closed by the responder: DISC)
+        for dlci in list(self.open):
+            self.send(rf.rfcomm_frame(rf.DISC, 0, dlci, 1))
+            r.ev('rfo_stale_dlcs_closed_by_peer')
+        self.open.clear()
+        await self.atk.rg.quiesce(extra_turns=8)
+        # 3. fresh cycles: the channel of the hostile dialogue again, then others, two DLCs open at once
+        first = self.task_channel or self.last_channel
+        others = [c for c in self.CHANNELS if c != first]
+        self.rng.shuffle(others)
+        held, bad = await self.cycle(first, keep_open=True)
+        if bad:
+            return bad
+        for i, c in enumerate(others[:3]):
+            _d, bad = await self.cycle(c)
+            if bad:
+                return bad
+            if i == 0 and held is not None:
+                bad = await self.close_dlc(held, f'DLC of channel {first} held open during another open')
+                held = None
+                if bad:
+                    return bad
+        _d, bad = await self.cycle(first)
+        if bad:
+            return bad
+        if self.mux.state.name != 'CONNECTED':
+            return [(f'multiplexer-state-wrong/after-{self.label}', f'after the cycles {self.diag()}')]
+        self.last_channel = first
+        r.ev('rfo_reference_runs_completed')
+        return []
+
+
+class AvdtpStateDriver(ChannelDriver):
+    """The AVDTP acceptor with three local end-points. Each round the harness walks some end-points into seeded
+    states with well-formed commands (idle / configured / open without and with transport channel / streaming), then
+    sends 1-4 well-formed commands of every signal whose ACP SEID is ONE boundary value (0, 1, last, last+1, 0x3E,
+    0x3F; with RFA bits; INT SEID 0 / 0x3F; Start/Suspend lists mixing a valid and the boundary SEID). A command
+    addressed to a SEID that does not exist must never be accepted. The reference is a RUN on EVERY local end-point:
+    Set_Configuration, Get_Configuration (the same bytes back), Open, transport channel, Start, a media packet
+    reaching exactly that sink, Suspend, Reconfigure, Start, Close, release, Set_Configuration again, Abort, and a
+    Discover listing all three."""
+    psm = 0x19
+    SIGNALS = (2, 3, 4, 5, 6, 7, 8, 9, 10, 11, 12, 13)
+    TARGETS = ('idle', 'configured', 'open-no-transport', 'open', 'streaming')
+
+    def __init__(self, env, rng):
+        super().__init__(env, rng)
+        self.corpus = rf.avdtp_corpus(1)
+        self.max_len = 300
+        self.lbl = 0
+        self.label = 'none'
+        self.sent = []              # hostile commands of the round: (label, signal, seids, all valid)
+        self.state = {}
+        self.transport = {}
+        self.rtp = {}
+        self.round = 0
+        self.walk_bad = []
+
+    async def setup(self):
+        await super().setup()
+        await self.atk.rg.quiesce(extra_turns=8)
+        if not self.env.avdtp_servers:
+            raise HarnessError('no AVDTP server on the victim')
+        self.server = self.env.avdtp_servers[-1]
+        self.N = len(self.server.local_endpoints)
+        if self.N != 3:
+            raise HarnessError(f'{self.N} local end-points')
+        self.bounds = rf.avdtp_boundary_seids(self.N)
+        for ep in self.server.local_endpoints:
+            self.state[ep.seid] = 'idle'
+            self.rtp[ep.seid] = []
+            ep.on(ep.EVENT_RTP_PACKET, lambda pkt, _s=ep.seid: self.rtp[_s].append(bytes(pkt.payload)))
+        self.kinds = {1: (0, 1), 2: (0, 0), 3: (0, 1)}       # SEID -> (media type audio, TSEP: 1 sink / 0 source)
+
+    # -- transactions ---------------------------------------------------------------------------
+    def next_label(self):
+        self.lbl = (self.lbl + 1) & 0xF
+        return self.lbl
+
+    async def transact(self, pdu: bytes, label: int):
+        rx = self.rx()
+        self.send_pdu(pdu)
+        got = await self.atk.until(lambda: next((p for p in rx if len(p) >= 2 and p[0] >> 4 == label and p[0] & 3 != 0), None))
+        if got is not None:
+            rx.remove(got)
+        return None if got is None else rf.avdtp_parse(got)
+
+    async def command(self, signal, seid, what, want_payload=None, **kw):
+        """A well-formed command that the specification says is accepted in the present state."""
+        label = self.next_label()
+        rsp = await self.transact(rf.avdtp_seid_cmd(label, signal, seid, **kw), label)
+        name = rf.AVDTP_SIGNAL_NAMES[signal]
+        self.env.r.ev('avs_reference_commands')
+        if rsp is None:
+            return self.channel_closed_by_victim() or [(f'run-{name}-unanswered/after-{self.label}',
+                                                        f'{what}: {name}(SEID {seid}) got no response {self.diag()}')]
+        _l, _pt, mtype, sig, payload = rsp
+        if mtype != 2 or sig != signal:
+            return [(f'run-{name}-refused/after-{self.label}',
+                     f'{what}: {name}(SEID {seid}) answered message type {mtype} signal {sig} payload {payload.hex()} '
+                     f'(0x12 bad ACP SEID, 0x13 SEP in use, 0x31 bad state) {self.diag()}')]
+        if want_payload is not None and payload != want_payload:
+            return [(f'run-{name}-wrong-answer/after-{self.label}', f'{what}: {name}(SEID {seid}) answered {payload.hex()} != {want_payload.hex()}')]
+        self.env.r.ev('avs_reference_commands_accepted')
+        return []
+
+    def diag(self):
+        try:
+            return '[victim streams: ' + ', '.join(f'{ep.seid}:{ep.stream.state.name if ep.stream else None}' for ep in self.server.local_endpoints) + \
+                f'; streams keys {sorted(self.server.streams)}; model {self.state}]'
+        except Exception as e:      # noqa: BLE001
+            return f'[victim state unavailable: {type(e).__name__}]'
+
+    async def open_transport(self, seid, what):
+        res = await self.atk.open_classic(self.psm, mtu=1024)
+        if isinstance(res, str):
+            return [(f'run-transport-channel-fails/after-{self.label}', f'{what}: transport channel for SEID {seid}: {res} {self.diag()}')]
+        self.transport[seid] = res
+        self.env.r.ev('avs_transport_channels_opened')
+        return []
+
+    async def release_transport(self, seid, what):
+        if seid not in self.transport:
+            return []
+        my, vcid = self.transport.pop(seid)
+        atk = self.atk
+        ident = atk.nid()
+        atk.send_sig(0x06, ident, rf.u16(vcid) + rf.u16(my))
+        s = await atk.until(lambda: atk.take_sig(lambda c, i, d: c == 0x07 and i == ident))
+        if s is None:
+            return [('no-disconnection-response', f'{what}: Disconnection Request for the transport channel of SEID {seid} not answered')]
+        return []
+
+    def _watch(self, cid, payload):
+        # (also: the victim may release a transport channel itself)
+        if cid == 1 and len(payload) >= 8 and payload[0] == 0x06:
+            dcid, scid = struct.unpack_from('<HH', payload, 4)
+            for seid, (my, _v) in list(self.transport.items()):
+                if my == dcid:
+                    del self.transport[seid]
+        super()._watch(cid, payload)
+
+    # -- walking end-points into states with well-formed commands ---------------------------------------
+    async def walk(self, seid, target):
+        what = f'walking SEID {seid} to {target}'
+        steps = {'idle': [], 'configured': [3], 'open-no-transport': [3, 6], 'open': [3, 6, 'T'], 'streaming': [3, 6, 'T', 7]}[target]
+        for st in steps:
+            if st == 'T':
+                bad = await self.open_transport(seid, what)
+            else:
+                bad = await self.command(st, seid, what)
+                if not bad:
+                    self.state[seid] = rf.AVDTP_ON_ACCEPT[(self.state[seid], st)]
+            if bad:
+                return bad
+        return []
+
+    async def before_round(self):
+        self.label = 'none'
+        self.sent = []
+        self.round += 1
+        rng = self.rng
+        self.walk_bad = []
+        seids = list(range(1, self.N + 1))
+        for seid in (rng.sample(seids, rng.choice([1, 1, 2, 3])) if self.round > 1 else []):
+            if self.state[seid] != 'idle':
+                continue
+            target = rng.choice(self.TARGETS)
+            self.walk_bad = await self.walk(seid, target)
+            self.env.r.ev(f'avs_walked_to_{target.replace("-", "_")}')
+            if self.walk_bad:
+                break
+
+    # -- hostile commands -------------------------------------------------------------------------
+    def script(self, signal, bound, variant, other):
+        return bytes([0, signal, bound, variant, other])
+
+    def script_name(self, sc):
+        _k, signal, bound, variant, other = sc
+        v = ('', ' RFA bits set', ' INT SEID 0', ' INT SEID 0x3F', ' after a valid SEID in the list', ' before a valid SEID in the list')[variant]
+        return f'{rf.AVDTP_SIGNAL_NAMES[signal]}({self.bounds[bound][0]}){v}'
+
+    def gen(self, n):
+        rng = self.rng
+        if rng.random() < 0.15:
+            out = []
+            for _ in range(min(n, 3)):
+                k, nm, d = rf.mutate(rng, self.corpus, max_len=self.max_len)
+                out.append(('raw-' + k, nm, b'\x01' + d))
+            return out
+        bound = rng.randrange(len(self.bounds))
+        out = []
+        for _ in range(rng.choice([1, 1, 2, 3, 4])):
+            signal = rng.choice(self.SIGNALS + (3, 3, 6, 10))
+            variant = rng.choice([0, 0, 0, 1, 2, 3]) if signal == 3 else rng.choice([0, 0, 1, 4, 5]) if signal in (7, 9) else rng.choice([0, 0, 1])
+            sc = self.script(signal, bound, variant, rng.randrange(1, self.N + 1))
+            out.append((self.bounds[bound][0], self.script_name(sc), sc))
+        return out
+
+    def enum_frames(self):
+        for b in range(len(self.bounds)):
+            for signal in self.SIGNALS:
+                variants = (0, 1, 2, 3) if signal == 3 else (0, 1, 4, 5) if signal in (7, 9) else (0, 1)
+                for v in variants:
+                    sc = self.script(signal, b, v, 1 + (signal + b) % self.N)
+                    yield ('single-' + self.bounds[b][0], self.script_name(sc), sc)
+
+    def tx(self, data):
+        if data[:1] == b'\x01':
+            self.label = 'mutated-frame'
+            self.raw_sent = True
+            return self.send_pdu(data[1:])
+        _k, signal, bound, variant, other = data
+        name, seid, valid = self.bounds[bound]
+        self.label = name
+        label = self.next_label()
+        kw = {}
+        seids = [seid]
+        if variant == 1:
+            kw['rfa'] = 3
+        elif variant == 2:
+            kw['int_seid'] = 0
+        elif variant == 3:
+            kw['int_seid'] = 0x3F
+        elif variant == 4:
+            pdu = rf.avdtp_seid_cmd(label, signal, other, more_seids=[seid])
+            seids = [other, seid]
+        elif variant == 5:
+            kw['more_seids'] = [other]
+            seids = [seid, other]
+        if variant != 4:
+            pdu = rf.avdtp_seid_cmd(label, signal, seid, **kw)
+        self.sent.append((label, signal, seids, valid, self.script_name(data)))
+        self.env.r.ev('avs_hostile_commands')
+        self.env.r.ev(f'avs_hostile_{name.replace("-", "_").replace("+", "plus")}')
+        self.send_pdu(pdu)
+
+    raw_sent = False
+
+    def send_pdu(self, pdu: bytes):
+        self.atk.send(self.ch[1], pdu)
+
+    # -- the run ------------------------------------------------------------------------------------
+    def account(self):
+        """What the hostile commands of the round did, from their responses: a command addressed to a SEID that
+        does not exist must be rejected (Abort: rejected or unanswered, 8.15.2); a command addressed to an existing
+        SEID changes the state as the specification's state machine says when (and only when) it was accepted."""
+        r = self.env.r
+        rx = self.rx()
+        bad = []
+        for label, signal, seids, valid, name in self.sent:
+            got = next((p for p in rx if len(p) >= 2 and p[0] >> 4 == label and p[0] & 3 != 0), None)
+            rsp = rf.avdtp_parse(got) if got is not None else None
+            if got is not None:
+                rx.remove(got)
+            sname = rf.AVDTP_SIGNAL_NAMES[signal]
+            if not valid:
+                r.ev('avs_invalid_seid_commands_judged')
+                r.ev('oracle_evals')
+                if rsp is None:
+                    if signal != 10:
+                        bad.append((f'invalid-acp-seid-unanswered/{sname}/{self.label}', f'{name}: no response'))
+                    continue
+                if rsp[2] == 2 and signal != 10:
+                    bad.append((f'invalid-acp-seid-accepted/{sname}/{self.label}',
+                                f'{name}: ACCEPTED (payload {rsp[4].hex()}) although no local end-point has that SEID {self.diag()}'))
+                continue
+            if rsp is None or rsp[2] != 2:
+                r.ev('avs_valid_seid_commands_rejected')
+                continue
+            r.ev('avs_valid_seid_commands_accepted')
+            for seid in ([s for s in seids if 1 <= s <= self.N] if signal in (7, 9) else seids[:1]):
+                cur = self.state[seid]
+                if signal == 10:
+                    self.state[seid] = 'aborted' if cur != 'idle' else 'idle'
+                elif signal in (3, 5, 6, 7, 8, 9):
+                    self.state[seid] = rf.AVDTP_ON_ACCEPT.get((cur, signal), 'unknown')
+        self.sent = []
+        rx.clear()
+        return bad
+
+    async def normalise(self):
+        """Every end-point back to idle, by the means the specification gives the initiator."""
+        for seid in range(1, self.N + 1):
+            st = self.state[seid]
+            what = f'bringing SEID {seid} back from {st}'
+            if st in ('idle',):
+                continue
+            if st not in ('closing', 'aborted'):
+                bad = await self.command(10, seid, what, want_payload=b'')
+                if bad:
+                    return bad
+            bad = await self.release_transport(seid, what)
+            if bad:
+                return bad
+            self.state[seid] = 'idle'
+            self.env.r.ev('avs_endpoints_normalised')
+        return []
+
+    async def run_endpoint(self, seid):
+        r = self.env.r
+        what = f'run on SEID {seid}'
+        sink = self.kinds[seid][1] == 1
+        for step in (3, 4, 6, 'T', 7, 'M', 9, 5, 7, 8, 'R', 3, 10):
+            if step == 'T':
+                bad = await self.open_transport(seid, what)
+            elif step == 'R':
+                bad = await self.release_transport(seid, what)
+            elif step == 'M':
+                bad = []
+                if sink:
+                    self.n = getattr(self, 'n', 0) + 1
+                    media = b'C17 media %d' % self.n
+                    before = {s: len(v) for s, v in self.rtp.items()}
+                    my, vcid = self.transport[seid]
+                    self.atk.send(vcid, bytes([0x80, 0x60]) + rf.be16(self.n) + struct.pack('>II', 160 * self.n, 0x1234) + media)
+                    await self.atk.until(lambda: True if len(self.rtp[seid]) > before[seid] else None, t=1.0)
+                    delivered = {s: v[before[s]:] for s, v in self.rtp.items()}
+                    if delivered != {s: ([media] if s == seid else []) for s in self.rtp}:
+                        bad = [(f'run-media-not-delivered/after-{self.label}',
+                                f'{what}: a media packet on the transport channel of the streaming sink {seid} was delivered as {delivered} {self.diag()}')]
+                    else:
+                        r.ev('avs_media_packets_delivered')
+            else:
+                want = rf.AVDTP_SBC_CONFIG if step == 4 else b''
+                bad = await self.command(step, seid, what, want_payload=want)
+            if bad:
+                return bad
+        r.ev('avs_endpoint_runs_completed')
+        return []
+
+    async def discover(self):
+        label = self.next_label()
+        rsp = await self.transact(rf.avdtp_discover(label), label)
+        if rsp is None:
+            return self.channel_closed_by_victim() or [('no-answer-after-garbage', f'AVDTP Discover unanswered {self.diag()}')]
+        _l, _pt, mtype, sig, payload = rsp
+        want = b''.join(bytes([seid << 2, (self.kinds[seid][0] << 4) | (self.kinds[seid][1] << 3)]) for seid in range(1, self.N + 1))
+        # (the in-use bit is not judged: bumble always reports 0)
+        got = bytes(b & 0xFD if i % 2 == 0 else b for i, b in enumerate(payload))
+        if mtype != 2 or sig != 1 or got != want:
+            return [('wrong-answer-after-garbage', f'Discover response type {mtype} signal {sig} {payload.hex()} != {want.hex()}')]
+        return []
+
+    async def reference(self):
+        if self.walk_bad:
+            bad, self.walk_bad = self.walk_bad, []
+            return bad
+        closed = self.channel_closed_by_victim()
+        if closed:
+            return closed
+        bad = self.account()
+        if bad:
+            return bad
+        if self.raw_sent:
+            # (mutated frames may be valid state-changing commands the harness does not track: every end-point is
+            # aborted before the run, as an initiator that lost track would)
+            self.raw_sent = False
+            for seid in range(1, self.N + 1):
+                if self.state[seid] == 'idle':
+                    self.state[seid] = 'unknown'
+        bad = await self.normalise()
+        if bad:
+            return bad
+        bad = await self.discover()
+        if bad:
+            return bad
+        order = list(range(1, self.N + 1))
+        k = self.round % self.N
+        for seid in order[k:] + order[:k]:
+            bad = await self.run_endpoint(seid)
+            if bad:
+                return bad
+        self.env.r.ev('avs_reference_runs_completed')
+        return []
+
+
+# =============================================================================
 # case runner
 # =============================================================================
 async def make_driver(env: Env, rng: random.Random) -> Driver:
@@ -2278,7 +3321,8 @@ async def make_driver(env: Env, rng: random.Random) -> Driver:
         await setup_br(env, rng, chan)
         d = {'br-sig': BrSigDriver, 'smp-br': SmpBrDriver, 'br-dyn': BrDynDriver, 'br-ertm': BrErtmDriver, 'sdp': SdpDriver,
              'rfcomm-mux': RfcommDriver, 'rfcomm-dlc': RfcommDlcDriver, 'hfp-ag': HfpAgDriver, 'hfp-hf': HfpHfDriver,
-             'avdtp': AvdtpDriver, 'avctp': AvctpDriver, 'br-config': BrConfigDriver, 'sdp-client': SdpClientDriver}.get(chan)
+             'avdtp': AvdtpDriver, 'avctp': AvctpDriver, 'br-config': BrConfigDriver, 'sdp-client': SdpClientDriver,
+             'ertm-state': ErtmStateDriver, 'rfcomm-open': RfcommOpenDriver, 'avdtp-state': AvdtpStateDriver}.get(chan)
         drv = d(env, rng) if d else HciDriver(env, rng, classic=True)
     drv.chan = chan
     await drv.setup()
